@@ -106,19 +106,24 @@ def canonical_rust(ctx: Ctx, rs: RustProgram) -> None:
         g = cfgmod.build_rs(fn.node, qual)
         ctx.functions_analysed += 1
         ctx.cfg_nodes += len(g.nodes)
-        canon = [st for st in fn.body["stmts"] if st.get("k") == "let" and st["pat"].get("k") == "p_ident" and st["pat"]["name"] == "address" and st.get("init") is not None and expr_text(st["init"]) == "canonical_address(address)"]
+        params_ = set(fn.params())
+        canon = [st for st in fn.body["stmts"] if st.get("k") == "let" and st["pat"].get("k") == "p_ident" and st.get("init") is not None and st["init"].get("k") == "call"
+                 and expr_text(st["init"]["f"]).split("::")[-1] == "canonical_address" and len(st["init"]["args"]) == 1 and expr_text(st["init"]["args"][0]) in params_]
         n += 1
         if len(canon) != 1:
             ctx.violation("C11.1/canonical", key_of(rel, qual, "canonical_address"), f"{qual} does not start from `let address = canonical_address(address)`", fn.where)
             continue
         cn = g.node_of(canon[0])
+        raw = expr_text(canon[0]["init"]["args"][0])       # the raw address parameter; every other use of that name must come after the reduction
         for nd in g.stmt_nodes():
             if nd.id == cn or nd.ast is None or not g.is_reachable(nd.id):
                 continue
-            if any(x.get("k") == "path" and x["p"] == "address" for x in walk(nd.ast)):
+            if any(x.get("k") == "path" and x["p"] == raw for x in walk(nd.ast)):
                 n += 1
                 if not g.dominates(cn, nd.id):
-                    ctx.violation("C11.1/canonical", key_of(rel, qual, f"use-before-canonical:{expr_text(nd.ast)[:40]}"), "`address` is used before canonical_address()", f"{rel}:{nd.line}")
+                    ctx.violation("C11.1/canonical", key_of(rel, qual, "address used before the reduction"), f"the address parameter is used before canonical_address(): `{expr_text(nd.ast)[:60]}`", f"{rel}:{nd.line}")
+                elif canon[0]["pat"]["name"] != raw:
+                    ctx.violation("C11.1/canonical", key_of(rel, qual, "raw address used after the reduction"), f"the unreduced address parameter is used although a reduced copy exists: `{expr_text(nd.ast)[:60]}`", f"{rel}:{nd.line}")
     # every index into self.external / self.internal
     for fn in rs.fns_in(MEM_RS):
         if fn.impl_ty != "MemoryImage" or fn.body is None:
@@ -282,12 +287,13 @@ def sentinel(ctx: Ctx, rs: RustProgram) -> None:
         for kind, x in nones:
             n += 1
             if kind == "?":
-                if expr_text(x["e"]) != "Self::internal_index(address)":
+                if not (x["e"].get("k") == "call" and expr_text(x["e"]["f"]) == "Self::internal_index" and len(x["e"]["args"]) == 1):
                     ctx.violation("C11.3/sentinel", key_of(fn.file, qual, f"{expr_text(x['e'])}?"), f"`{expr_text(x['e'])}?` can make {qual} report 'not internal'", f"{fn.file}:{x['ln']}")
                 continue
             node = g.node_of(x)
             gs = [rs_guard_text(q) for q in g.guards_of(node)] if node is not None else []
-            ctx.violation("C11.3/sentinel", key_of(fn.file, qual, "return None:" + ";".join(gs)),
+            kinds = ["internal_index ok" if "internal_index" in q_ else "length test" if ".len()" in q_ else "other test" for q_ in gs]
+            ctx.violation("C11.3/sentinel", key_of(fn.file, qual, "return None under " + "; ".join(kinds)),
                           f"{qual} returns the fall-through sentinel for an *internal* address (guards: {gs}): a multi-byte access at internal 0xFE/0xFF "
                           "falls through to the overlay/external path and touches external memory", f"{fn.file}:{x['ln']}", guards=gs)
     ctx.instance("C11.3/sentinel", "sources of the `None` (not-internal) result in load/store_internal_value", n, 4)
@@ -315,7 +321,8 @@ def read_only(ctx: Ctx, py: PyProgram, rs: RustProgram) -> None:
             if a.get("k") == "assign":
                 l = a["l"]
                 lt = expr_text(l)
-                if lt.startswith("self.external[") or (lt == "*slot" and any("self.external" in expr_text(def_root(dd)) for dd in rs_defs(fn.body).get("slot", []) if isinstance(def_root(dd), dict))):
+                deref = l.get("k") == "unary" and l.get("op") == "*" and l["e"].get("k") == "path"
+                if lt.startswith("self.external[") or (deref and any("self.external" in expr_text(def_root(dd)) for dd in rs_defs(fn.body).get(l["e"]["p"], []) if isinstance(def_root(dd), dict))):
                     writes.append(a)
             elif a.get("k") == "mcall" and a["m"] == "copy_from_slice" and "self.external" in expr_text(a["recv"]):
                 writes.append(a)
@@ -336,7 +343,7 @@ def read_only(ctx: Ctx, py: PyProgram, rs: RustProgram) -> None:
     ow = rs.fn(MEM_RS, "MemoryOverlay::write")
     g = cfgmod.build_rs(ow.node, ow.qual)
     for a in walk(ow.body):
-        if a.get("k") == "assign" and expr_text(a["l"]) == "data[offset]":
+        if a.get("k") == "assign" and a["l"].get("k") == "index" and any("self.data" in l_ for l_ in rs_leaves(a["l"]["e"], rs_defs(ow.body)) | {expr_text(a["l"]["e"])}):
             n += 1
             gs = g.guards_of(g.node_of(a))
             if not any(isinstance(x, dict) and expr_text(x) == "self.read_only" and not pol for x, pol, _o in gs):
@@ -464,7 +471,13 @@ def little_endian(ctx: Ctx, py: PyProgram, rs: RustProgram) -> None:
     for qual in ("MemoryImage::load_with_pc", "MemoryImage::store_with_pc", "MemoryImage::load_internal_value", "MemoryImage::store_internal_value",
                  "MemoryImage::load_overlay_value", "MemoryImage::store_overlay_value"):
         fn = rs.fn(MEM_RS, qual)
-        loops = [l for l in walk(fn.body) if l.get("k") == "for" and l["iter"].get("k") == "range" and expr_text(l["iter"]) == "0..bytes"]
+        # the byte loop: `for i in 0..<byte count>` whose body shifts by i*8 (the count is whatever local/parameter holds the width)
+        def _is_byte_loop(l: dict) -> bool:
+            if not (l.get("k") == "for" and l["iter"].get("k") == "range" and l["iter"].get("lo") is not None and expr_text(l["iter"]["lo"]) == "0" and l["pat"].get("k") == "p_ident"):
+                return False
+            v = l["pat"]["name"]
+            return any(b.get("k") == "binary" and b["op"] in ("<<", ">>") and expr_text(b["r"]).replace("(", "").replace(")", "").replace(" ", "") in (f"{v}*8", f"8*{v}") for b in walk(l["body"]))
+        loops = [l for l in walk(fn.body) if _is_byte_loop(l)]
         n += 1
         if len(loops) != 1:
             ctx.violation("C11.5/little-endian", key_of(rel, qual, "byte loop"), f"{qual} has no single `for i in 0..bytes` loop", fn.where)
